@@ -41,6 +41,9 @@ type C14Case struct {
 	FaultAt  int      `json:"fault_at,omitempty"`
 	Tape     []Switch `json:"tape,omitempty"`
 	Layout   string   `json:"layout,omitempty"`
+	// Build2 builds a second tensor of the same element type and shape with other values: byte formats encode it
+	// between encoding and decoding the source ("the caller keeps the first result while encoding something else")
+	Build2 []Op `json:"build2,omitempty"`
 }
 
 // ------------------------------------------------------------------------------------------------
@@ -61,6 +64,7 @@ type simPipe struct {
 	// measurements
 	reads, shortReads, zeroReads, eofWithData, writerParked, readerParked int
 	sig                                                                   uint64
+	encHash                                                               uint64
 }
 
 type injectedIOErr struct{ what string }
@@ -94,6 +98,7 @@ func (p *simPipe) Write(b []byte) (int, error) {
 		}
 		for i := 0; i < k; i++ {
 			p.buf = append(p.buf, b[n+i])
+			p.encHash = fnvAdd(p.encHash, b[n+i])
 		}
 		n += k
 		p.written += k
@@ -238,6 +243,14 @@ func genC14(seed uint64) *C14Case {
 			}
 		}
 	}
+	b2 := cs.Build[0]
+	b2.F = float64(int(b2.F)%900 + 3)
+	b2.Out = 900
+	if b2.Mode != "scalar" {
+		b2.Mode = "row"
+	}
+	b2.N = 0
+	cs.Build2 = []Op{b2}
 	cs.PipeCap = []int{1, 2, 3, 7, 16, 64, 256}[r.Intn(7)]
 	cs.MaxChunk = []int{1, 1, 2, 3, 5, 8, 64, 0}[r.Intn(8)]
 	cs.ZeroRead = []int{0, 0, 0, 9, 30}[r.Intn(5)]
@@ -349,6 +362,7 @@ type c14Result struct {
 	switches uint64
 	probe    string // outcome class under an injected stream fault
 	decoded  uint64 // snapshot hash of the decoded tensor (0: none)
+	encHash  uint64 // hash of the encoded bytes (byte formats and direct streams)
 }
 
 func recoverTo(err *error, what string) {
@@ -471,6 +485,29 @@ func execC14(cs *C14Case, replay bool) *c14Result {
 				b, encErr = src.FBEncode()
 			}
 		}()
+		bytesChanged := false
+		if encErr == nil && len(cs.Build2) > 0 {
+			// the caller holds b and encodes another tensor before decoding
+			snap := append([]byte(nil), b...)
+			for i := range cs.Build2 {
+				op := cs.Build2[i]
+				w.Exec(&op)
+			}
+			if other := w.get(cs.Build2[len(cs.Build2)-1].Out); other != nil {
+				func() {
+					defer func() { recover() }()
+					switch cs.Format {
+					case "gobbytes":
+						other.GobEncode()
+					case "pb":
+						other.PBEncode()
+					case "fb":
+						other.FBEncode()
+					}
+				}()
+			}
+			bytesChanged = !bytes.Equal(snap, b)
+		}
 		if encErr == nil {
 			func() {
 				defer func() {
@@ -489,13 +526,18 @@ func execC14(cs *C14Case, replay bool) *c14Result {
 			}()
 		}
 		res.bytes = len(b)
+		res.encHash = fnvBytes(fnvOff, b)
 		judge(d, encErr, decErr, encPanic, decPanic)
+		if bytesChanged {
+			res.outcome, res.detail = "encoded-bytes-changed", "the byte slice returned by the encoder changed when another tensor was encoded afterwards"
+		}
 		return res
 	}
 	if cs.Direct {
 		var buf bytes.Buffer
 		encErr, encPanic := encodeTo(cs.Format, src, &buf)
 		res.bytes = buf.Len()
+		res.encHash = fnvBytes(fnvOff, buf.Bytes())
 		var d *tensor.Dense
 		var decErr error
 		var decPanic bool
@@ -506,7 +548,7 @@ func execC14(cs *C14Case, replay bool) *c14Result {
 		return res
 	}
 	// two tasks over the simulated pipe
-	p := &simPipe{capacity: cs.PipeCap, maxChunk: cs.MaxChunk, zeroDen: cs.ZeroRead, eofWith: cs.EOFWith, rng: RNG{s: cs.Deliver}, werrAt: -1, rerrAt: -1, sig: fnvOff}
+	p := &simPipe{capacity: cs.PipeCap, maxChunk: cs.MaxChunk, zeroDen: cs.ZeroRead, eofWith: cs.EOFWith, rng: RNG{s: cs.Deliver}, werrAt: -1, rerrAt: -1, sig: fnvOff, encHash: fnvOff}
 	p.buf = make([]byte, 0, cs.PipeCap+8)
 	crashAt := -1
 	switch cs.Fault {
@@ -553,6 +595,7 @@ func execC14(cs *C14Case, replay bool) *c14Result {
 	cs.Tape = append([]Switch(nil), S.tape...)
 	res.switches = S.switches
 	res.bytes = p.written
+	res.encHash = p.encHash
 	if S.deadlock {
 		res.outcome, res.detail = "deadlock", "encoder and decoder both blocked on the pipe"
 		return res
@@ -583,7 +626,7 @@ type C14Stats struct {
 	Trips, Refused, Equal                             uint64
 	Bytes, Reads, ShortReads, ZeroReads, EOFWithData  uint64
 	WriterParked, ReaderParked, Switches, DirectTrips uint64
-	ByteFormats, DeliveryPairs                        uint64
+	ByteFormats, DeliveryPairs, HistoryPairs          uint64
 	Outcomes                                          map[string]uint64
 	PerFormat                                         map[string]uint64
 	Layouts                                           map[string]uint64
@@ -643,6 +686,7 @@ func isViolationC14(outcome string) bool {
 func workC14(res *WorkerResult, start time.Time) {
 	st := &C14Stats{Outcomes: map[string]uint64{}, PerFormat: map[string]uint64{}, Layouts: map[string]uint64{}, Probe: map[string]uint64{},
 		FaultsInjected: map[string]uint64{}, Distinct: map[uint64]struct{}{}}
+	var prev *C14Case
 	classIdx := map[string]int{}
 	keep := func(rf *ReplayFile) {
 		k := c14ClassKey(rf.Violation)
@@ -731,6 +775,27 @@ func workC14(res *WorkerResult, start time.Time) {
 				continue
 			}
 		}
+		// history independence: the same round trip again, after the previous run's round trip was
+		// repeated in between, must give the same bytes, the same outcome and the same decoded tensor
+		if prev != nil && rs%3 == 0 && r.outcome != "deadlock" {
+			execC14(prev, true)
+			again := *cs
+			q := execC14(&again, true)
+			st.HistoryPairs++
+			// (pb and fb write string elements as raw string headers, i.e. addresses: their byte streams differ by construction)
+			rawPointers := (cs.Format == "pb" || cs.Format == "fb") && cs.Build[0].S == "string"
+			if q.outcome != r.outcome || q.detail != r.detail || q.decoded != r.decoded || (q.encHash != r.encHash && !rawPointers) {
+				v := &Violation{Property: "C14", Kind: "history-dependence", FailOp: cs.Format, Class: cs.Layout + "/" + cs.Build[0].S,
+					Detail: fmt.Sprintf("format %s, source %s %s: the first round trip gave %q (%s, %d bytes, stream hash %016x); the same round trip after a %s round trip of another tensor gave %q (%s, stream hash %016x)",
+						cs.Format, cs.Build[0].S, cs.Layout, r.outcome, r.detail, r.bytes, r.encHash, prev.Format, q.outcome, q.detail, q.encHash)}
+				v.Ops = []string{cs.Format, cs.Layout, "history"}
+				v.Ctx = c14Ctx(cs, r)
+				keep(&ReplayFile{Property: "C14", Violation: v, Seed: *flagSeed, Run: run, Tags: *flagTags, C14: cs, From: prev})
+				prev = cs
+				continue
+			}
+		}
+		prev = cs
 		if !isViolationC14(r.outcome) {
 			continue
 		}
@@ -765,7 +830,7 @@ func workC14(res *WorkerResult, start time.Time) {
 		"round_trips": st.Trips, "outcomes": st.Outcomes, "per_format": st.PerFormat, "layouts": st.Layouts, "bytes": st.Bytes,
 		"reads": st.Reads, "short_reads": st.ShortReads, "zero_reads": st.ZeroReads, "eof_with_data": st.EOFWithData,
 		"writer_parked": st.WriterParked, "reader_parked": st.ReaderParked, "switches": st.Switches, "direct_trips": st.DirectTrips,
-		"byte_format_trips": st.ByteFormats, "delivery_pairs_compared": st.DeliveryPairs, "probe_only_outcomes": st.Probe, "faults_injected": st.FaultsInjected,
+		"byte_format_trips": st.ByteFormats, "delivery_pairs_compared": st.DeliveryPairs, "history_pairs_compared": st.HistoryPairs, "probe_only_outcomes": st.Probe, "faults_injected": st.FaultsInjected,
 		"distinct_nontrivial": len(st.Distinct), "samples": st.Samples,
 	}
 }
